@@ -546,8 +546,16 @@ class DNSRRSet:
     def _get_lookup(self) -> Dict[DNSRecord, DNSRecord]:
         """Return the lookup table, building it if needed."""
         if self._lookup is None:
-            # Build the hash table so we can lookup the record ttl
-            self._lookup = {record: record for record in self._records}
+            # Build the hash table so we can lookup the record ttl. A record
+            # that is listed more than once counts with its highest ttl: a
+            # later copy with a low ttl must not hide the one that suffices
+            lookup: Dict[DNSRecord, DNSRecord] = {}
+            for record in self._records:
+                known = lookup.get(record)
+                if known is None or record.ttl > known.ttl:
+                    lookup.pop(record, None)
+                    lookup[record] = record
+            self._lookup = lookup
         return self._lookup
 
     def suppresses(self, record: _DNSRecord) -> bool:
